@@ -1636,9 +1636,12 @@ class AnsiString:
         split_idx_len = []
         idx = 0
         for s in str_splits:
-            idx = self._s.find(s, idx)
+            if sep is None:
+                idx = self._s.find(s, idx)
             split_idx_len.append((idx, len(s)))
             idx += len(s)
+            if sep is not None:
+                idx += len(sep)
 
         ansi_str_splits = []
         for idx, length in split_idx_len:
